@@ -528,7 +528,7 @@ class RandomGen:
         body = self.block(1, self.names + ['a', 'b'], 0, False, lo=lo, hi=hi)
         b.fns[0]['body'] = initial_assignments(b, self.r, self.names, self.init, self.cx, self.objects, self.lists) + body
         p = b.finish()
-        p['keys'] = 1 if (self.objects and self.r.random() < 0.4) else 0
+        p['keys'] = 1 if (self.objects and not p.get('lists') and self.r.random() < 0.4) else 0   # (LISTS is claimed for locals only)
         return p
 
 
@@ -1062,7 +1062,7 @@ class PureGen:
         b.fns[0]['body'] = body
         p = b.finish()
         p['pure'] = 1
-        p['keys'] = 1 if (self.objects and self.r.random() < 0.4) else 0
+        p['keys'] = 1 if (self.objects and not p.get('lists') and self.r.random() < 0.4) else 0   # (LISTS is claimed for locals only)
         return p
 
 
